@@ -268,6 +268,29 @@ def index_carriers(ctx, sp):
         if sel and A.wsearch(body, "if let Some((index,_,_))=%s{parsed.%s=Some(index)}" % (sel, fld)):
             carriers[("ParsedFields", fld)] = space
     if len(carriers) != 2:
+        # second accepted form: the indices are projected out of the selected triples and handed to the constructor
+        # `ParsedFields::new(data, source, backtrace)`, which stores each parameter in the field of the same role
+        newf = [g for g in A.functions(fn.file) if g.qual == "ParsedFields::new"]
+        call = next((c for c, _ in A.find(fn.block, "Expr::Call") if A.kind(c["func"]) == "Expr::Path" and A.path_str(c["func"]) == "ParsedFields::new"), None)
+        if newf and call is not None:
+            prm = [A.pat_idents(p_["0"]["pat"]) for p_ in newf[0].node["sig"]["inputs"] if A.kind(p_) == "FnArg::Typed"]
+            lit = next((x for x, _ in A.find(newf[0].block, "Expr::Struct")), None)
+            stored = {}
+            if lit is not None:
+                for fv in lit["fields"]:
+                    nm = fv["member"]["0"]["sym"] if A.kind(fv["member"]) == "Member::Named" else None
+                    src = A.render(fv["expr"])
+                    for i_, p_ in enumerate(prm):
+                        if p_ == [src]:
+                            stored[nm] = i_
+            for fld in ("source", "backtrace"):
+                if fld in stored and stored[fld] < len(call["args"]):
+                    arg = call["args"][stored[fld]]
+                    b = TY.resolve(fn, A.render(arg), A.span_of(arg)[0]) if A.kind(arg) == "Expr::Path" else None
+                    init = A.render(b["init"]) if b and b.get("init") is not None else ""
+                    if A.wsearch(init, 'parse_field_impl(&pred,state.fields.len(),iter.clone(),"%s",' % fld) and re.search(r"\)\?\.map\(\|\((\w+),_,_\)\|\1\)$", init):
+                        carriers[("ParsedFields", fld)] = space
+    if len(carriers) != 2:
         raise A.AnchorLost(f"{rel}::parse_fields_impl", "assignments of source/backtrace from the enumerate index")
     return carriers
 
